@@ -56,9 +56,16 @@ CUR = [
     dict(via='gently', score='+15%'),
     dict(via='gently', score='+15%', activate=False),
     dict(via='explain', score='-5%', label='L'),
+    dict(via='explain', score='20%', valence=0),
+    dict(via='gently', score='50%', valence=0, activate=False),
+    dict(via='gently', score='+10%', valence=1),
+    dict(category='mistakes', score='+20%', valence=1, label='L', fields={'x': 1}),
+    dict(category='mistakes', score=0.333, valence=0, label='L', fields={'x': 2}),
 ]
 SUPSETS = [[], [('instructor', True, None)], [(None, 'L', None)], [('mistakes', 'l', None)],
-           [('runtime', True, None), ('positive', True, None)]]
+           [('runtime', True, None), ('positive', True, None)],
+           [(None, 'L', {'x': 1}), (None, 'L', {'x': 2})], [(None, 'L', {'x': 2}), (None, 'L', {'x': 1})],
+           [('mistakes', 'L', {'x': 1}), ('mistakes', 'L', {'x': 2})], [(None, 'L', {'x': 2})]]
 
 
 def _setup():
